@@ -58,7 +58,7 @@ def configs(tier):
            ("find", "TPV", "scalar"), ("find", "SIP", "scalar"), ("find", "TPV", "array"),
            ("wrap_ra_diff", "scalar"), ("wrap_ra_diff", "array"),
            ("jacobian",),
-           ]
+           ("fpwrap", "scalar"), ("fpwrap", "array")]
     if tier == "thorough":
         out += [("chain", "SIP3", "scalar"), ("deproj", "array2"), ("chain", "TPV", "array2"), ("find", "SIP", "array")]
     return out
@@ -881,7 +881,30 @@ def _h_state(cx, cfg):
 
 
 def _h_fpwrap(cx, cfg):
-    raise symx.Unsupported("fp kernel not built yet")
+    """longitude in [0, 360) as a statement about IEEE doubles: image2sph run with Rotate by contract (any
+    finite double in [-180, 180] for the longitude -- what arctan2 times 180/pi can return) and the wrap
+    executed over the z3 FloatingPoint sort"""
+    w, _ = _module(cx)
+    h = dict(_concrete_headers()[0][1])
+    W = w.WCS(h)
+    form = cfg[1]
+    lonv = cx.fp("rot_lon", -180.0, 180.0)
+    latv = cx.fp("rot_lat", -90.0, 90.0)
+
+    def rot(lon, lat, reverse=False, origin=False):
+        if form == "scalar":
+            return lonv, latv
+        return symnp.array([lonv]), symnp.array([latv])
+    W.Rotate = rot
+    if form == "scalar":
+        lon, lat = W.image2sph(3.0, -4.0)
+    else:
+        lon, lat = W.image2sph(symnp.array([3.0]), symnp.array([-4.0]))
+    lo = _first(lon)
+    cx.check("image2sph (IEEE doubles): whatever longitude in [-180, 180] the rotation returns, the result lies in [0, 360)",
+             sym_and(lo >= 0.0, lo < 360.0))
+    cx.check("image2sph (IEEE doubles): the wrapped longitude differs from the rotated one by 0 or 360",
+             sym_or(lo == lonv, lo == lonv + 360.0, lo == lonv - 360.0, lo == (lonv + 360.0) - 360.0))
 
 
 
@@ -1079,6 +1102,34 @@ def replay(cand):
                 if not (-180.0 <= r <= 180.0) or abs(q - round(q)) > 1e-9:
                     return bad("wrap_ra_diff", "wrap_ra_diff(%r) = %r" % (dd, r))
         return no
+    if what == "fpwrap":
+        # 1. the kernel on the real code with the rotation returning the model's double
+        v = model_float(mdl.get("rot_lon", -1e-15))
+        W = w.WCS(dict(_concrete_headers()[0][1]))
+        W.Rotate = (lambda lon, lat, reverse=False, origin=False: (np.float64(v), np.float64(10.0))) if cfg[1] == "scalar" else \
+                   (lambda lon, lat, reverse=False, origin=False: (np.array([v]), np.array([10.0])))
+        lo = W.image2sph(3.0, -4.0)[0] if cfg[1] == "scalar" else W.image2sph(np.array([3.0]), np.array([-4.0]))[0][0]
+        if 0.0 <= float(lo) < 360.0:
+            return no
+        # 2. realised end to end: reference points on the RA = 0 seam, pixels on the reference meridian
+        for crval1 in (0.0, 360.0 - 1e-13, 1e-14):
+            for crval2 in (0.0, 10.0, -33.3, 45.0, 60.0, -75.0, 89.0):
+                for scale in (0.05, 0.27, 1.0, 2.0):
+                    sc = scale / 3600.0
+                    for cd in ((-sc, 0.0, 0.0, sc), (sc, 0.0, 0.0, sc), (-sc, 0.0, 0.0, -sc), (sc, 0.0, 0.0, -sc)):
+                        h = dict(naxis1=2048, naxis2=4096, ctype1="RA---TAN", ctype2="DEC--TAN", crpix1=1024.5, crpix2=2048.5, crval1=crval1, crval2=crval2,
+                                 cd1_1=cd[0], cd1_2=cd[1], cd2_1=cd[2], cd2_2=cd[3])
+                        Wh = w.WCS(h)
+                        y = np.arange(1.0, 4097.0, 5.0)
+                        x = np.full_like(y, 1024.5)
+                        lon, lat = Wh.image2sky(x, y)
+                        badi = np.where((lon < 0.0) | (lon >= 360.0))[0]
+                        if badi.size:
+                            i = int(badi[0])
+                            ls = float(Wh.image2sky(float(x[i]), float(y[i]))[0])
+                            return bad("range:longitude", "CRVAL=(%r, %r), CD=%r: image2sky(%r, %r) longitude = %r (array) / %r (scalar), not in [0, 360); kernel: rotated longitude %r wraps to %r"
+                                       % (crval1, crval2, cd, float(x[i]), float(y[i]), float(lon[i]), ls, v, float(lo)))
+        return {"reproduced": False, "what": "kernel misbehaves for a rotated longitude of %r but no header of the search family realises it" % v, "key": None}
     heads = list(_concrete_headers())
     mh = _model_header(cfg, mdl)
     if mh is not None:
